@@ -776,8 +776,19 @@ def render_item(repo_root, d, log, cache):
         mpick = re.match(r'^(.*)#(\d+)$', pat, re.S)
         if mpick:
             pat, pick = mpick.group(1), int(mpick.group(2))
+        every = pat.endswith('#*')      # `pattern#*`: the same hint at every occurrence (at least one)
+        if every:
+            pat = pat[:-2]
         rx = ws_pattern(pat)
         ms = list(rx.finditer(body))
+        if every:
+            if not ms:
+                raise LostAnchor(f'{what}: anchor `{pat}` matches 0 times')
+            if where in ('blockend', 'blockafter'):
+                raise LostAnchor(f'{what}: `#*` is not supported with {where}')
+            for mm_ in ms:
+                splices.append((mm_.start() if where == 'before' else mm_.end(), '\n' + txt.rstrip() + '\n'))
+            continue
         if pick is None and len(ms) != 1:
             raise LostAnchor(f'{what}: anchor `{pat}` matches {len(ms)} times')
         if pick is not None and pick >= len(ms):
